@@ -1,0 +1,66 @@
+//go:build verif
+
+// Contracts for package proxycore, read by the /verif VC generator (vcgo). Only compiled with
+// -tags verif. //@ blocks are contracts keyed by function; Go functions here are pure
+// specification functions. No existing function is changed.
+
+package proxycore
+
+// ---------------------------------------------------------------------------------------------
+// C15: round-robin load balancer and query plans
+// ---------------------------------------------------------------------------------------------
+
+// verifHosts is the abstract view of the load balancer: the host list currently published.
+func verifHosts(l *roundRobinLoadBalancer) []*Host { return l.hosts.Load().([]*Host) }
+
+//@ iface proxycore.Endpoint.Key
+//@   ensures result == ufStr("endpoint.key", recv)
+//@   modifies nothing
+
+//@ func proxycore.Host.Key [C15]
+//@   # (no precondition: a nil host is a nil-dereference obligation of the body)
+//@   ensures result == ufStr("endpoint.key", h.Endpoint)
+//@   modifies nothing
+
+//@ type proxycore.roundRobinLoadBalancer
+//@   invariant self.mu != nil
+//@   invariant typeis(self.hosts.v, []*Host)
+
+// Next: "a new query plan yields every host currently in the cluster exactly once ... then reports
+// exhaustion": the k-th call returns hosts[(offset+k) mod n] in mathematical arithmetic (which, with
+// the bijection lemma rr_bij, visits every index exactly once), then nil forever.
+//@ func proxycore.roundRobinQueryPlan.Next [C15]
+//@   requires p != nil && len(p.hosts) < 4294967296
+//@   replay verifReplayNext(p.offset, p.index, len(p.hosts))
+//@   ensures rotation: old(p.index) < len(old(p.hosts)) ==> result == old(p.hosts[(p.offset + p.index) % len(p.hosts)]) && p.index == old(p.index) + 1
+//@   ensures exhaustion: old(p.index) >= len(old(p.hosts)) ==> result == nil && p.index == old(p.index)
+//@   ensures p.offset == old(p.offset) && p.hosts == old(p.hosts)
+//@   modifies p.index
+
+// NewQueryPlan: snapshot of the published list, starting at the next rotation offset.
+//@ func proxycore.roundRobinLoadBalancer.NewQueryPlan [C15]
+//@   requires l != nil && inv(l)
+//@   ensures typeis(result, *roundRobinQueryPlan)
+//@   ensures as(result, *roundRobinQueryPlan).hosts == old(verifHosts(l))
+//@   ensures as(result, *roundRobinQueryPlan).index == 0
+//@   ensures as(result, *roundRobinQueryPlan).offset == old(l.index)
+//@   ensures counter: l.index == (old(l.index) + 1) % 4294967296
+//@   ensures rotation-step: len(verifHosts(l)) > 0 ==> l.index % len(verifHosts(l)) == (old(l.index) % len(verifHosts(l)) + 1) % len(verifHosts(l))
+//@   known rotation-step: old(l.index) == 4294967295
+//@   replay verifReplayNewQueryPlan(l.index, len(verifHosts(l)))
+//@   ensures fresh(as(result, *roundRobinQueryPlan))
+//@   modifies l.index
+
+// OnEvent: the published list is replaced, never edited in place: no store hits a backing array
+// that existed before the call (frame), so plans already handed out are unaffected.
+//@ func proxycore.roundRobinLoadBalancer.OnEvent [C15]
+//@   requires l != nil && inv(l)
+//@   requires typeis(event, *BootstrapEvent) ==> as(event, *BootstrapEvent) != nil
+//@   requires typeis(event, *AddEvent) ==> as(event, *AddEvent) != nil && as(event, *AddEvent).Host != nil
+//@   requires typeis(event, *RemoveEvent) ==> as(event, *RemoveEvent) != nil && as(event, *RemoveEvent).Host != nil
+//@   ensures inv(l)
+//@   ensures bootstrap: typeis(event, *BootstrapEvent) ==> verifHosts(l) == old(as(event, *BootstrapEvent).Hosts)
+//@   ensures add-len: typeis(event, *AddEvent) ==> len(verifHosts(l)) == old(len(verifHosts(l))) + 1
+//@   ensures add-last: typeis(event, *AddEvent) ==> verifHosts(l)[len(verifHosts(l))-1] == old(as(event, *AddEvent).Host)
+//@   ensures remove-len: typeis(event, *RemoveEvent) ==> len(verifHosts(l)) == old(len(verifHosts(l))) || len(verifHosts(l)) == old(len(verifHosts(l))) - 1
+//@   modifies l.hosts
